@@ -72,10 +72,41 @@ fn run<T: Evaluate>(pw: &Piecewise<T>, u: &Unit, idxs: &[usize], kind: &str, cx:
         }
     }
     match guard(|| it.next()) {
-        Ok(None) => Ok(()),
-        Ok(Some(_)) => Err(Fail::new("evaluate_v yields more outputs than inputs", detail(json!({})))),
-        Err(p) => Err(Fail::new(format!("evaluate_v iterator panicked at end: {p}"), detail(json!({})))),
+        Ok(None) => {}
+        Ok(Some(_)) => return Err(Fail::new("evaluate_v yields more outputs than inputs", detail(json!({})))),
+        Err(p) => return Err(Fail::new(format!("evaluate_v iterator panicked at end: {p}"), detail(json!({})))),
     }
+    // however the iterator is consumed, position k must hold the k-th output of the plain left-to-right run
+    if xs.len() >= 2 {
+        let r = guard(|| {
+            let all: Vec<f64> = pw.evaluate_v(xs.clone()).collect();
+            let mut got: Vec<(&'static str, usize, Option<f64>)> = vec![];
+            got.push(("last()", xs.len() - 1, pw.evaluate_v(xs.clone()).last()));
+            got.push(("nth(1)", 1, pw.evaluate_v(xs.clone()).nth(1)));
+            got.push(("skip(1).next()", 1, pw.evaluate_v(xs.clone()).skip(1).next()));
+            if xs.len() >= 3 {
+                got.push(("nth(2)", 2, pw.evaluate_v(xs.clone()).nth(2)));
+                got.push(("skip(2).next()", 2, pw.evaluate_v(xs.clone()).skip(2).next()));
+                got.push(("step_by(2).nth(1)", 2, pw.evaluate_v(xs.clone()).step_by(2).nth(1)));
+            }
+            let mut it2 = pw.evaluate_v(xs.clone());
+            let _ = it2.next();
+            got.push(("next() then count()", xs.len() - 1, Some(it2.count() as f64)));
+            (all, got)
+        });
+        let (all, got) = match r {
+            Ok(t) => t,
+            Err(p) => return Err(Fail::new(format!("evaluate_v panicked under a positional adapter: {p}"), detail(json!({})))),
+        };
+        for (name, k, v) in got {
+            let want = if name.starts_with("next() then") { Some(k as f64) } else { all.get(k).cloned() };
+            let same = match (v, want) { (Some(a), Some(b)) => bits_eq(a, b), (None, None) => true, _ => false };
+            if !same {
+                return Err(Fail::new(format!("evaluate_v(..).{name} differs from position {k} of the plain run (skipped arguments must still move the cursor)"), detail(json!({"adapter": name, "position": k, "got": v.map(fj), "expected": want.map(fj)}))));
+            }
+        }
+    }
+    Ok(())
 }
 
 pub fn check(thorough: bool, _seed: u64) -> Check {
